@@ -67,8 +67,9 @@ func newJobResult() *JobResult {
 }
 
 type WorkItem struct {
-	job    *Job
-	prefix []int64
+	job     *Job
+	prefix  []int64
+	witness map[string]uint64 // a model of the path condition reached after replaying prefix (may be nil)
 }
 
 // WorkQueue is a shared LIFO of pending path prefixes.
@@ -154,12 +155,23 @@ type Explorer struct {
 	witness map[string]uint64
 	memo    map[int]uint64
 
+	stats    map[string]*[3]int // per source position: queries answered sat / unsat / skipped (VERIF_STATS)
+	curSite  string
+	initW    map[string]uint64
+	pending  []pendingAssert
+	rng      *Ranges
+	skipped  int
 	known    map[int]bool // term ids asserted on this path (true) / whose negation was asserted (false)
 	obs      []obsTerm
 	reached  []string
 	asserted map[string]bool
 	failed   string // first failed assertion label on this path (for records)
 	maxViol  int
+}
+
+type pendingAssert struct {
+	label string
+	c     *Term
 }
 
 type inputRec struct {
@@ -179,10 +191,13 @@ func (e *Explorer) startPath(it WorkItem) {
 	e.prefix, e.pos, e.cur = it.prefix, 0, make([]int64, 0, len(it.prefix)+16)
 	e.vars, e.inputs = nil, nil
 	e.witness, e.memo = nil, nil
+	e.initW = it.witness
+	e.pending = nil
 	e.obs, e.reached = nil, nil
 	e.asserted = map[string]bool{}
 	e.failed = ""
 	e.known = map[int]bool{}
+	e.rng = newRanges()
 	e.s.Reset()
 }
 
@@ -212,6 +227,11 @@ func (e *Explorer) inconclusive(why string) {
 // ensureWitness makes sure e.witness satisfies the asserted path condition.
 func (e *Explorer) ensureWitness() {
 	if e.witness != nil {
+		return
+	}
+	if e.initW != nil {
+		e.witness, e.initW = e.initW, nil
+		e.memo = map[int]uint64{}
 		return
 	}
 	r, m := e.s.Check(e.tb.Bool(true), e.vars)
@@ -264,7 +284,7 @@ func (e *Explorer) branch(c *Term) bool {
 	}
 	if e.replaying() {
 		v := e.next()
-		if _, ok := e.known[c.id]; !ok {
+		if _, ok := e.known[c.id]; !ok && e.rng.tri(c) < 0 {
 			if v == 1 {
 				e.s.Assert(c)
 			} else {
@@ -274,6 +294,7 @@ func (e *Explorer) branch(c *Term) bool {
 		}
 		return v == 1
 	}
+	e.flush()
 	if kv, ok := e.known[c.id]; ok { // decided syntactically by an earlier assertion of the same term
 		if kv {
 			e.decide(1)
@@ -282,6 +303,11 @@ func (e *Explorer) branch(c *Term) bool {
 		}
 		return kv
 	}
+	if tv := e.rng.tri(c); tv >= 0 { // decided by interval reasoning over the path condition
+		e.skipped++
+		e.decide(int64(tv))
+		return tv == 1
+	}
 	dir := e.evalW(c) == 1
 	var other *Term
 	if dir {
@@ -289,7 +315,20 @@ func (e *Explorer) branch(c *Term) bool {
 	} else {
 		other = c
 	}
-	r, _ := e.s.Check(other, nil)
+	r, altModel := e.s.Check(other, e.vars)
+	if e.stats != nil {
+		st := e.stats[e.curSite]
+		if st == nil {
+			st = &[3]int{}
+			e.stats[e.curSite] = st
+		}
+		if r == "sat" {
+			st[0]++
+		} else {
+			st[1]++
+		}
+		e.curSite = "(non-if)"
+	}
 	if r == "unknown" {
 		e.inconclusive("unknown at branch")
 		r = "sat" // over-approximate: keep the branch
@@ -302,7 +341,7 @@ func (e *Explorer) branch(c *Term) bool {
 		} else {
 			alt[len(e.cur)] = 1
 		}
-		e.q.Push(WorkItem{e.job, alt})
+		e.q.Push(WorkItem{e.job, alt, altModel})
 	}
 	if dir {
 		e.decide(1)
@@ -316,6 +355,7 @@ func (e *Explorer) branch(c *Term) bool {
 }
 
 func (e *Explorer) note(c *Term, v bool) {
+	e.rng.assume(c, v)
 	e.known[c.id] = v
 	if c.op == "not" {
 		e.known[c.args[0].id] = !v
@@ -326,18 +366,25 @@ func (e *Explorer) assume(c *Term) bool {
 	if c.IsConst() {
 		return c.val == 1
 	}
-	if e.replaying() {
-		e.s.Assert(c)
+	if e.rng.tri(c) == 1 {
 		return true
 	}
+	if e.replaying() {
+		e.s.Assert(c)
+		e.note(c, true)
+		return true
+	}
+	e.flush()
 	if e.evalW(c) == 1 {
 		e.s.Assert(c)
+		e.note(c, true)
 		return true
 	}
 	r, m := e.s.Check(c, e.vars)
 	switch r {
 	case "sat":
 		e.s.Assert(c)
+		e.note(c, true)
 		e.setWitness(m)
 		return true
 	case "unknown":
@@ -357,6 +404,7 @@ func (e *Explorer) choice1(n int) int {
 	if n <= 1 {
 		return 0
 	}
+	e.flush()
 	if e.replaying() {
 		return int(e.next())
 	}
@@ -364,7 +412,7 @@ func (e *Explorer) choice1(n int) int {
 		alt := make([]int64, len(e.cur)+1)
 		copy(alt, e.cur)
 		alt[len(e.cur)] = int64(v)
-		e.q.Push(WorkItem{e.job, alt})
+		e.q.Push(WorkItem{e.job, alt, e.witness})
 	}
 	e.decide(0)
 	return 0
@@ -429,53 +477,85 @@ func (e *Explorer) assert(label string, c *Term) {
 	}
 	if e.replaying() {
 		e.s.Assert(c)
+		e.note(c, true)
 		return
 	}
+	if e.rng.tri(c) == 1 {
+		return
+	}
+	// assertions are checked lazily, several at a time, at the next decision point or at the end of the path
+	e.pending = append(e.pending, pendingAssert{label, c})
+	if c.False() {
+		e.flush()
+	}
+}
+
+// flush decides all pending assertions with one query (their conjunction), records violations and then
+// continues the path under the assumption that they hold.
+func (e *Explorer) flush() {
+	if len(e.pending) == 0 {
+		return
+	}
+	ps := e.pending
+	e.pending = nil
+	conj := e.tb.Bool(true)
+	for _, p := range ps {
+		conj = e.tb.And(conj, p.c)
+	}
 	violated := false
-	if c.False() || e.evalW(c) == 0 {
+	if conj.False() || e.evalW(conj) == 0 {
 		violated = true
 	} else {
-		r, m := e.s.Check(e.tb.Not(c), e.vars)
+		r, m := e.s.Check(e.tb.Not(conj), e.vars)
 		switch r {
 		case "sat":
 			violated = true
 			e.setWitness(m)
 		case "unknown":
-			e.inconclusive("unknown at assert " + label)
+			e.inconclusive("unknown at assert " + ps[0].label)
 		}
 	}
 	if violated {
-		save := e.failed
-		e.failed = label
-		rec := e.record("assert", "")
-		e.failed = save
-		res.mu.Lock()
-		v := res.viols[label]
-		if v == nil {
-			v = &Violation{Label: label}
-			res.viols[label] = v
+		res := e.job.res
+		for _, p := range ps {
+			if !p.c.False() && e.evalW(p.c) == 1 {
+				continue
+			}
+			save := e.failed
+			e.failed = p.label
+			rec := e.record("assert", "")
+			e.failed = save
+			res.mu.Lock()
+			v := res.viols[p.label]
+			if v == nil {
+				v = &Violation{Label: p.label}
+				res.viols[p.label] = v
+			}
+			v.Count++
+			if len(v.Recs) < 3 {
+				v.Recs = append(v.Recs, rec)
+			}
+			res.mu.Unlock()
 		}
-		v.Count++
-		if len(v.Recs) < 3 {
-			v.Recs = append(v.Recs, rec)
-		}
-		res.mu.Unlock()
-		if c.False() {
+		if conj.False() {
 			panic(abortPath{"assert false"})
 		}
-		// continue the path under the assumption that the assertion held
-		r, m := e.s.Check(c, e.vars)
+		// continue the path under the assumption that the assertions held
+		r, m := e.s.Check(conj, e.vars)
 		switch r {
 		case "sat":
 			e.setWitness(m)
 		case "unsat":
 			panic(abortPath{"assert always fails"})
 		default:
-			e.inconclusive("unknown after assert " + label)
+			e.inconclusive("unknown after assert " + ps[0].label)
 			panic(abortPath{"solver unknown"})
 		}
 	}
-	e.s.Assert(c)
+	for _, p := range ps {
+		e.s.Assert(p.c)
+		e.note(p.c, true)
+	}
 }
 
 func (e *Explorer) reach(label string) {
